@@ -390,6 +390,15 @@ class Spec(object):
                 return vs[:1]
         return []
 
+    def apply_checks_to_root(self):
+        out = []
+        for v in self.verify(self.init()):
+            if v["sig"] not in self.seen_sigs:
+                self.seen_sigs.add(v["sig"])
+                v["case"] = {"history": []}
+                out.append(v)
+        return out
+
     def _apply(self, st, op):
         from clikit.api.args import exceptions as X
         if st.canon is None:
@@ -727,6 +736,10 @@ def replay(case):
     spec = _spec_for(case)
     st = spec.init()
     first = None
+    for v in spec.verify(st):
+        if v["sig"] == case.get("sig"):
+            return v
+        first = first or v
     for op in case["history"]:
         for v in spec._apply(st, norm(op)):
             if v["sig"] == case.get("sig"):
@@ -746,7 +759,10 @@ def _simplicity(v):
 def _run_part(p):
     alpha, base, depth, dedup, extra = p
     spec = Spec(alphabet(alpha, extra), BASES[base])
+    # the explorer evaluates the oracle on transitions only: the initial state (empty builder on the base) is judged here
+    root_vs = spec.apply_checks_to_root()
     r = explore.explore(spec, depth, split_depth=0, dedup=dedup, workers=1)
+    r.violations[:0] = root_vs
     vs = []
     for v in r.violations[:20]:
         v["case"].update(alphabet=alpha, base=BASES[base], sig=v["sig"])
